@@ -48,6 +48,22 @@ Proof.
   match goal with |- context [if ?b then _ else _] => destruct b end; reflexivity.
 Qed.
 
+Lemma hold_to_log : forall fuel s target, log (hold_to fuel s target) = log s.
+Proof.
+  induction fuel as [|fuel IH]; intros s target; cbn [hold_to]; [reflexivity|].
+  destruct (min_timer (timers s)) as [t|]; [|reflexivity].
+  destruct (t_due t <=? target); [|reflexivity]. rewrite IH. reflexivity.
+Qed.
+
+Lemma release_all_paused_log : forall v c fuel s,
+  v_pause v = true -> paused s = true -> log (release_all v c fuel s) = log s.
+Proof.
+  intros v c fuel. induction fuel as [|fuel IH]; intros s Hv Hp; cbn [release_all]; [reflexivity|].
+  destruct (min_timer (zombies s)) as [t|]; [|reflexivity].
+  pose proof (fire_paused_log v c (drop_zombie s t) t Hv Hp) as [Hl Hp'].
+  rewrite IH by assumption. exact Hl.
+Qed.
+
 (** For every state whatsoever (not only reachable ones), every event and both
     ways of driving the reconnector: if reconnection is paused, the event
     starts no attempt. *)
@@ -66,6 +82,8 @@ Proof.
   - reflexivity.
   - unfold cancel. destruct (lookup a (smap s)); reflexivity.
   - reflexivity.
+  - unfold advance_hold. apply hold_to_log.
+  - apply release_all_paused_log; assumption.
 Qed.
 
 (** ... and an attempt whose callback returns with a failure while paused
@@ -315,7 +333,7 @@ Lemma wf_shrink : forall c s h' m' ts' fl p cl nid,
   (forall a j, lookup a m' = Some j -> lookup a (smap s) = Some j) ->
   heap_flags (heap s) h' ->
   WF c {| now := now s; heap := h'; smap := m'; timers := ts'; flights := fl; paused := p; closed := cl;
-          next_id := nid; gen := gen s; log := log s |}.
+          next_id := nid; gen := gen s; log := log s; zombies := zombies s |}.
 Proof.
   intros c s h' m' ts' fl p cl nid W Hts Hnd Hm Hh. split; cbn [heap timers smap now log gen].
   - intros i o' Hi. destruct (Hh _ _ Hi) as [o [Ho (E1&E2&E3)]]. destruct (wf_heap _ _ W _ _ Ho) as (A1&A2&A3).
@@ -330,7 +348,7 @@ Qed.
 
 Lemma wf_same : forall c s fl p cl nid, WF c s ->
   WF c {| now := now s; heap := heap s; smap := smap s; timers := timers s; flights := fl; paused := p; closed := cl;
-          next_id := nid; gen := gen s; log := log s |}.
+          next_id := nid; gen := gen s; log := log s; zombies := zombies s |}.
 Proof.
   intros. apply wf_shrink; auto. apply (wf_nodup _ _ H). apply heap_flags_refl.
 Qed.
@@ -348,7 +366,7 @@ Qed.
 (** Schedule allocates a fresh state object for an address that has none *)
 Lemma wf_alloc : forall c s a, WF c s -> lookup a (smap s) = None ->
   WF c {| now := now s; heap := heap s ++ [fresh c]; smap := (a, length (heap s)) :: smap s; timers := timers s;
-          flights := flights s; paused := paused s; closed := closed s; next_id := next_id s; gen := gen s; log := log s |}.
+          flights := flights s; paused := paused s; closed := closed s; next_id := next_id s; gen := gen s; log := log s; zombies := zombies s |}.
 Proof.
   intros c s a W Hl. split; cbn [heap timers smap now log gen].
   - intros i o Hi. destruct (nth_error_snoc_cases _ _ _ _ Hi) as [Hi'|[-> ->]].
@@ -373,7 +391,7 @@ Proof.
   assert (Hs1 : exists s1 i, (match lookup a (smap s) with
             | Some i => (s, i)
             | None => ({| now := now s; heap := heap s ++ [fresh c]; smap := (a, length (heap s)) :: smap s; timers := timers s;
-                          flights := flights s; paused := paused s; closed := closed s; next_id := next_id s; gen := gen s; log := log s |},
+                          flights := flights s; paused := paused s; closed := closed s; next_id := next_id s; gen := gen s; log := log s; zombies := zombies s |},
                        length (heap s))
             end) = (s1, i) /\ WF c s1).
   { destruct (lookup a (smap s)) eqn:E; [exists s, n; auto|].
@@ -382,7 +400,7 @@ Proof.
   destruct (nth_error (heap s1) i) as [o|] eqn:Hi; [|exact W1].
   cbn [fixed v_single andb]. destruct (rs_inflight o); [exact W1|].
   set (s2 := {| now := now s1; heap := heap s1; smap := smap s1; timers := stop_of o (timers s1); flights := flights s1;
-                paused := paused s1; closed := closed s1; next_id := next_id s1; gen := gen s1; log := log s1 |}).
+                paused := paused s1; closed := closed s1; next_id := next_id s1; gen := gen s1; log := log s1; zombies := zombies s1 |}).
   assert (W2 : WF c s2).
   { apply wf_shrink; auto.
     - intros t. apply stop_of_in.
@@ -408,7 +426,7 @@ Proof.
   assert (Hnd : NoDup (map t_gen ts0)) by (apply stop_timer_nodup, (wf_nodup _ _ W)).
   assert (W0 : forall h', heap_flags (heap s) h' ->
            WF c {| now := now s; heap := h'; smap := smap s; timers := ts0; flights := flights s; paused := paused s;
-                   closed := closed s; next_id := next_id s; gen := gen s; log := log s |}).
+                   closed := closed s; next_id := next_id s; gen := gen s; log := log s; zombies := zombies s |}).
   { intros h' Hh. apply wf_shrink; auto. }
   destruct (lookup (t_addr t) (smap s)) as [i|] eqn:Hl; [|apply W0, heap_flags_refl].
   destruct (closed s); [apply W0, heap_flags_refl|].
@@ -581,7 +599,7 @@ Proof.
   intros c s k ok Hc W. unfold reply. destruct (nth_error (flights s) k) as [f|]; [|exact W].
   cbn [heap fixed v_single v_pause andb].
   set (s0 := {| now := now s; heap := heap s; smap := smap s; timers := timers s; flights := remove_nth (flights s) k;
-                paused := paused s; closed := closed s; next_id := next_id s; gen := gen s; log := log s |}).
+                paused := paused s; closed := closed s; next_id := next_id s; gen := gen s; log := log s; zombies := zombies s |}).
   assert (W0 : WF c s0) by (apply wf_same, W).
   destruct (nth_error (heap s) (f_obj f)) as [o|] eqn:Hi; [|exact W0].
   set (o1 := {| rs_attempts := rs_attempts o; rs_next := rs_next o; rs_timer := rs_timer o; rs_timer_id := rs_timer_id o;
@@ -597,7 +615,7 @@ Proof.
   match goal with |- context [if negb ?b then _ else _] => destruct b end; cbn [negb]; [|exact W1].
   assert (Wdel : forall fl p cl nid, WF c {| now := now s1; heap := heap s1; smap := remove_addr (f_addr f) (smap s1);
                          timers := timers s1; flights := fl; paused := p; closed := cl; next_id := nid;
-                         gen := gen s1; log := log s1 |}).
+                         gen := gen s1; log := log s1; zombies := zombies s1 |}).
   { intros. apply (wf_shrink c s1); auto.
     - apply (wf_nodup _ _ W1).
     - intros b j. apply lookup_remove_addr_some.
@@ -611,7 +629,10 @@ Proof.
   - apply wf_arm; auto.
 Qed.
 
-Definition op_ok (o : op) : Prop := match o with Adv d => 0 <= d | _ => True end.
+(** histories for the backoff law: time advances are non-negative and timer
+    goroutines run without scheduling latency (no AdvHold / Release) *)
+Definition op_ok (o : op) : Prop :=
+  match o with Adv d => 0 <= d | AdvHold _ | Release => False | _ => True end.
 
 Lemma wf_apply : forall c mgr s o, cfg_ok c -> op_ok o -> WF c s -> WF c (apply fixed c mgr s o).
 Proof.
@@ -626,6 +647,8 @@ Proof.
   - apply wf_reset_all, W.
   - apply wf_cancel, W.
   - apply wf_stop, W.
+  - destruct Ho.
+  - destruct Ho.
 Qed.
 
 Lemma wf_run : forall c mgr ops s, cfg_ok c -> Forall op_ok ops -> WF c s -> WF c (run fixed c mgr s ops).
@@ -736,3 +759,12 @@ Example backoff_law_example :
                    [Sched 0%N; Adv sec; Reply 0 false; Adv (2 * sec); Reply 0 false; Adv (4 * sec)])))
   = [(1 * sec, 0, 0); (3 * sec, 1, 1 * sec); (7 * sec, 2, 3 * sec)].
 Proof. vm_compute. reflexivity. Qed.
+
+(** The code before the repairs: the timer expires, its goroutine has not yet
+    taken the mutex when Pause runs (Stop() comes too late), then it runs. *)
+Lemma refuted_pause_race :
+  exists pre o, starts_while_paused pre_fix std false pre o.
+Proof.
+  exists [Sched 0%N; AdvHold sec; Pause], Release.
+  unfold starts_while_paused. vm_compute. split; [reflexivity|lia].
+Qed.
